@@ -730,3 +730,13 @@ package tree
 //@   requires t != nil
 //@   modifies nothing
 //@   ensures every_owner_of_the_transaction [C04 C08]: result == (owner == t.actualOwner || present(t.actualOwners, owner))
+
+// ---------------------------------------------------------------------------
+// C20: ordering the entries of a list for the renderers never crashes, whatever the entries hold for their key leaves
+//@ func listEntryKeyValue
+//@   props C20 C14
+//@   requires e != nil
+//@ func listEntryKeyLevelName
+//@   props C20 C14
+//@   requires e != nil
+//@   loop 0 invariant e != nil
